@@ -505,7 +505,12 @@ func (a SortedFrameEvents) Less(i, j int) bool {
 		return a[i].LamportTimestamp < a[j].LamportTimestamp
 	}
 
-	wsi, _, _ := keys.DecodeSignature(a[i].Core.Signature)
-	wsj, _, _ := keys.DecodeSignature(a[j].Core.Signature)
+	wsi, _, erri := keys.DecodeSignature(a[i].Core.Signature)
+	wsj, _, errj := keys.DecodeSignature(a[j].Core.Signature)
+	if erri != nil || errj != nil {
+		// signatures that do not decode (only possible in a received Frame)
+		// are ordered as strings
+		return a[i].Core.Signature < a[j].Core.Signature
+	}
 	return wsi.Cmp(wsj) < 0
 }
